@@ -159,6 +159,9 @@ func HostRuleConfLoad(filename string) (HostConf, error) {
 
 	for product, hostTagList := range *config.HostTags {
 		for _, hostTag := range *hostTagList {
+			if other, ok := hostTag2Product[hostTag]; ok && other != product {
+				return conf, fmt.Errorf("hostTag[%s] belongs to more than one product", hostTag)
+			}
 			hostTag2Product[hostTag] = product
 		}
 	}
